@@ -76,6 +76,22 @@ func init() {
 		cc.st.comps = rr.state.comps
 		return e.packResult(cc.resT, rr.rets)
 	}
+	// (*sync.Once).Do(f): f runs at most once; whether this call is the one that runs it is unknown
+	specTable["(*sync.Once).Do"] = func(e *Exec, cc *callCtx) Val {
+		fv := cc.args[1]
+		if fv.Clo == nil {
+			e.note("sync.Once.Do with unknown function")
+			return Val{T: cc.resT, Term: "0"}
+		}
+		runs := e.fresh(cc.f.prefix+"once_runs", "Bool")
+		before := cc.st.clone()
+		e.inlineStack = append(e.inlineStack, fv.Clo.Fn)
+		_, rr := e.runBody(fv.Clo.Fn, nil, fv.Clo.Bindings, cc.st, And(cc.reach, runs), nil, cc.f.depth+1)
+		e.inlineStack = e.inlineStack[:len(e.inlineStack)-1]
+		merged := e.mergeStates([]*State{rr.state, before}, []Term{runs, "true"})
+		cc.st.comps = merged.comps
+		return Val{T: cc.resT, Term: "0"}
+	}
 	for _, p := range errPreds {
 		p := p
 		specTable[pkgAPIErr+"."+p] = func(e *Exec, cc *callCtx) Val {
